@@ -233,6 +233,12 @@ theorem serverSuites_ok {ss : Settings} {sc : ServerCfg} {o : Offer} {v : Nat} {
           · cases hl0
   · cases h
 
+theorem mem_certUsable {l : List Nat} {c : Option Cred} {v s : Nat} (h : s ∈ certUsable l c v) : s ∈ l := by
+  unfold certUsable at h
+  split at h
+  · cases h
+  · exact mem_filterForCertificate h
+
 theorem mem_prfFiltered {ss : Settings} {o : Offer} {v : Nat} {l : List Nat} {s : Nat} (h : s ∈ prfFiltered ss o v l) : s ∈ l := by
   unfold prfFiltered at h
   split at h
@@ -248,7 +254,7 @@ theorem selectCertificate_ok {ss : Settings} {sc : ServerCfg} {o : Offer} {suite
   · rename_i cipher hfind
     have hmem := List.mem_of_find?_eq_some hfind
     have hoff : cipher ∈ o.suites := List.contains_iff_mem.mp (List.find?_some hfind)
-    have hsu : cipher ∈ suites := mem_filterForCertificate (mem_prfFiltered hmem)
+    have hsu : cipher ∈ suites := mem_certUsable (mem_prfFiltered hmem)
     split at h
     · cases h
     · rename_i sig hsig
@@ -274,7 +280,7 @@ theorem ecSelect_ok {ss : Settings} {o : Offer} {v suite g : Nat} (h : ecSelect 
       refine ⟨this.2, fun cg hcg => ?_⟩
       have h1 := this.1
       rw [hcg] at h1; exact h1
-    · split at h <;> cases h
+    · cases h
   · rename_i hec
     injection h with h; subst h
     exact ⟨fun ht => absurd ht hec, fun _ => rfl⟩
@@ -292,7 +298,7 @@ theorem serverSelect12_ok {ss : Settings} {sc : ServerCfg} {o : Offer} {v suite 
   split at h
   · cases h
   · split at h
-    · split at h <;> cases h
+    · cases h
     · split at h
       · cases h
       · have := pure_eq_ok.mp h
@@ -315,7 +321,7 @@ theorem serverSelect12_sendsCert {ss : Settings} {sc : ServerCfg} {o : Offer} {v
   split at h
   · cases h
   · split at h
-    · split at h <;> cases h
+    · cases h
     · split at h
       · cases h
       · have := pure_eq_ok.mp h
@@ -503,7 +509,7 @@ theorem clientAccept12_ok {cs : Settings} {cc : ClientCfg} {sc : ServerCfg} {o :
     clientSig12 cs p.clientCert sel = .ok p.clientSig ∧
     (cs.requireEMS = true → sel.ems = true) ∧ clientCheckDhSize cs sel = .ok () := by
   simp only [clientAccept12, bind_eq_ok] at h
-  obtain ⟨_, h1, _, _, _, _, _, _, _, _, _, _, _, hcert, _, hdh, _, _, _, hkex, cSig, hsig, h⟩ := h
+  obtain ⟨_, h1, _, _, _, _, _, _, _, _, _, _, _, hcert, _, hdh, _, _, _, _, _, hkex, cSig, hsig, h⟩ := h
   have := pure_eq_ok.mp h
   subst this
   refine ⟨rfl, rfl, rfl, rfl, rfl, rfl, rfl, hcert, hkex, hsig, fun hr => ?_, hdh⟩
@@ -606,17 +612,22 @@ theorem curveNamesToList_allows {st : Settings} {v g : Nat} (h : g ∈ curveName
 
 theorem pickSig_ok {ss : Settings} {o : Offer} {cred : Option Cred} {v sig : Nat}
     (h : pickSig ss o cred v = some sig) :
-    (∀ algs, o.sigAlgs = some algs → sig ∈ sigHashesToList ss none cred v ∧ sig ∈ algs) ∧
-    (o.sigAlgs = none → sig = 0) := by
+    (∀ algs, o.sigAlgs = some algs → sig ≠ 0 → sig ∈ sigHashesToList ss none cred v ∧ sig ∈ algs) ∧
+    (o.sigAlgs = none → sig = 0) ∧ (v < 3 → sig = 0) := by
   unfold pickSig at h
   split at h
-  · rename_i hn
+  · rename_i hlt
     injection h with h
-    exact ⟨fun algs ha => (by rw [hn] at ha; cases ha), fun _ => h.symm⟩
-  · rename_i algs hs
-    refine ⟨fun algs' ha => ?_, fun hn => (by rw [hs] at hn; cases hn)⟩
-    rw [hs] at ha; injection ha with ha; subst ha
-    exact firstMatching_some h
+    exact ⟨fun algs _ hne => absurd h.symm hne, fun _ => h.symm, fun _ => h.symm⟩
+  · rename_i hge
+    split at h
+    · rename_i hn
+      injection h with h
+      exact ⟨fun algs ha => (by rw [hn] at ha; cases ha), fun _ => h.symm, fun hlt => absurd hlt hge⟩
+    · rename_i algs hs
+      refine ⟨fun algs' ha _ => ?_, fun hn => (by rw [hs] at hn; cases hn), fun hlt => absurd hlt hge⟩
+      rw [hs] at ha; injection ha with ha; subst ha
+      exact firstMatching_some h
 
 /-- in a strictly decreasing list the first match is the largest match -/
 theorem firstMatching_max {l ms : List Nat} {v : Nat} (h : firstMatching l ms = some v)
